@@ -415,3 +415,13 @@ Lemma zero_insert_example :
   abs (run (fun _ _ => 0%Z) (fun _ => 0%Z) (fun _ => 0%Z) empty_vec [AssignRange [1; 2; 3]%Z; InsertN 1 0 9%Z; InsertRange 0 []])
   = [1; 2; 3]%Z.
 Proof. vm_compute. reflexivity. Qed.
+
+(* ---- a message rebuilt from metadata shows no sub-message as present, whatever was used before ---- *)
+Lemma map_const_false {A} (l : list A) : map (fun _ => false) l = repeat false (length l).
+Proof. induction l; simpl; congruence. Qed.
+
+Lemma msg_recreate_fresh used : msg_recreate used = repeat false (length used).
+Proof.
+  unfold msg_recreate, msg_reserve. rewrite b_msg_reserve_clears, map_const_false.
+  rewrite map_length, combine_length, map_length, Nat.min_id. reflexivity.
+Qed.
